@@ -797,6 +797,16 @@ class Exec:
             if isinstance(base, MDict):
                 base.delitem(self, st, self.eval(t.slice, st), t)
                 return
+            if isinstance(base, MList) and not isinstance(t.slice, ast.Slice):
+                # del lst[i]: the elements above i move down by one (the index must be provably in
+                # 0 <= i < len: negative indices are not modelled, an obligation that fails instead)
+                i = self.to_term(self.eval(t.slice, st), TInt, st)
+                ln = base.ty.f_len(base.t)
+                self.safety(st, z3.And(0 <= i, i < ln), f'del of an index in range at line {t.lineno}', t)
+                o = self.ops(st)
+                base.t = o.concat(base.ty, o.slice(base.ty, base.t, z3.IntVal(0), i),
+                                  o.slice(base.ty, base.t, i + 1, ln))
+                return
         raise OutOfSubset(f'del of {type(t).__name__} at line {t.lineno}')
 
     # loops ------------------------------------------------------------------------------------
@@ -865,6 +875,17 @@ class Exec:
 
     def st_For(self, s, st):
         spec, li = self.loop_spec(s)
+        # a list mutated in place by the body while the loop walks it: iterators are live views, the
+        # snapshot model of as_iter would be wrong -- only reversed(NAME) has a live model
+        _, mutated_, _ = assigned_names(s.body)
+        # (len(NAME) is evaluated once, before the loop starts)
+        live_ok = {id(c.args[0]) for c in ast.walk(s.iter)
+                   if isinstance(c, ast.Call) and isinstance(c.func, ast.Name) and c.func.id in ('reversed', 'len')
+                   and len(c.args) == 1 and isinstance(c.args[0], ast.Name)}
+        for x in ast.walk(s.iter):
+            if isinstance(x, ast.Name) and x.id in mutated_ and isinstance(st.env.get(x.id), MList) \
+                    and id(x) not in live_ok:
+                raise OutOfSubset(f'loop at line {s.lineno} mutates the list {x.id} it iterates over')
         src = self.as_iter(self.eval(s.iter, st), st)
         if src is None:
             raise OutOfSubset(f'for over unsupported iterable at line {s.lineno}')
@@ -2214,7 +2235,14 @@ def _b_range(ex, st, args, kwargs, n, spec):
     elif len(ts) == 2:
         lo, hi = ts
     else:
-        raise OutOfSubset('range with step')
+        step = z3.simplify(ts[2])
+        if z3.is_int_value(step) and step.as_long() == -1:
+            lo, hi = ts[0], ts[1]
+            cnt = z3.If(lo - hi < 0, 0, lo - hi)
+            return IterSrc(z3.simplify(cnt), lambda k, s: Val(TInt, lo - k), TInt)
+        if not (z3.is_int_value(step) and step.as_long() == 1):
+            raise OutOfSubset('range with a step other than 1 / -1')
+        lo, hi = ts[0], ts[1]
     cnt = z3.If(hi - lo < 0, 0, hi - lo)
     lo_s = z3.simplify(lo)
     if z3.is_int_value(lo_s) and lo_s.as_long() == 0:
@@ -2249,6 +2277,24 @@ def _b_reversed(ex, st, args, kwargs, n, spec):
     src = ex.as_iter(args[0], st)
     if src is None:
         raise OutOfSubset('reversed over unsupported iterable')
+    if isinstance(args[0], MList) and n.args and isinstance(n.args[0], ast.Name):
+        # list_reverseiterator is a LIVE view: it keeps an index starting at len-1 (len taken when the
+        # iterator is created) and yields lst[index] of the list as it is THEN, stopping for good when
+        # index >= len(lst).  Item k is therefore the current lst[n0-1-k]; that the index is still in
+        # range is an obligation (if it could fail the real loop would end early, which is not modelled).
+        name, ty, n0 = n.args[0].id, args[0].ty, src.n
+
+        def live_item(k, s, name=name, ty=ty, n0=n0, node=n):
+            cur = s.env.get(name)
+            if not isinstance(cur, MList):
+                raise OutOfSubset(f'reversed({name}): {name} is rebound while it is iterated')
+            ex.safety(s, n0 - 1 - k < ty.f_len(cur.t),
+                      f'reversed({name}) index still inside the list it walks (line {node.lineno})', node)
+            return ex.wrap(ty.elem, ty.f_at(cur.t, n0 - 1 - k), s)
+
+        r = IterSrc(src.n, live_item, src.ty)
+        r.live = name
+        return r
     return IterSrc(src.n, lambda k, s: src.item(src.n - 1 - k, s), src.ty)
 
 
